@@ -82,6 +82,8 @@ where
 }
 
 fn do_work<Op: Operator>(mut block: Block<Op>, coord: Coord) {
+    #[cfg(feature = "verif")]
+    let _verif_guard = crate::verif::worker_guard(coord);
     let mut catch_panic = CatchPanic::new(|| {
         error!("worker {} crashed!", coord);
     });
